@@ -177,7 +177,7 @@ func ruleC15Table(e *Env) {
 func ruleC15Copy(e *Env) {
 	const rule = "C15.copy"
 	sp := e.P.ByName["date"]
-	fft := e.P.Func("date", "FilterFromTo")
+	fft := e.F("date", "FilterFromTo")
 	if sp == nil || fft == nil {
 		return
 	}
